@@ -53,6 +53,10 @@ def run(ctx) -> None:
 
     ctx.reuse("C16.order-twins", c18.sorting)
     ctx.reuse("C16.order-twins", c18.grouping)
+    # both devices reject the same operations: neither copy discards an error of a tracked operation
+    from . import c02
+
+    ctx.reuse("C16.step-twins", c02.no_swallow)
 
 
 def override_set(ctx) -> None:
